@@ -130,7 +130,18 @@ func prefix32(b byte) [32]byte {
 	return p
 }
 
-func c02def() []byte { return syncx.TriggerDefinition(syncx.TargetAddr, topicHit, nil) }
+// c02def: logs of the target contract with topic 0 == topicHit and first data
+// word (a uint256) <= 1000.
+func c02def() []byte {
+	d := shutterservice.EventTriggerDefinition{
+		Contract: syncx.TargetAddr,
+		LogPredicates: []shutterservice.LogPredicate{
+			{LogValueRef: shutterservice.LogValueRef{Offset: 0}, ValuePredicate: shutterservice.ValuePredicate{Op: shutterservice.BytesEq, ByteArgs: [][]byte{topicHit.Bytes()}}},
+			{LogValueRef: shutterservice.LogValueRef{Offset: 4}, ValuePredicate: shutterservice.ValuePredicate{Op: shutterservice.UintLte, IntArgs: []*big.Int{big.NewInt(1000)}}},
+		},
+	}
+	return d.MarshalBytes()
+}
 
 func (h *c02h) spec() kpx.NodeSpec {
 	return kpx.NodeSpec{Flavour: "service", CfgIndex: c02Set, Members: c02members, Threshold: 2, Activation: c02Activation, Eon: 5, Keys: h.keys, MaxKeys: 16, State: kpx.ConfigOnly}
@@ -398,7 +409,13 @@ func (h *c02h) apply(s *c02state, o c02op, st *report.Stats) (ns *c02state, viol
 		logs = append(logs, fakechain.LogSpec{Address: syncx.TargetAddr, Topics: []common.Hash{topicHit}, Data: common.BigToHash(big.NewInt(1)).Bytes()})
 		m.HitLogs = append(m.HitLogs, num)
 	case "miss":
-		logs = append(logs, fakechain.LogSpec{Address: syncx.TargetAddr, Topics: []common.Hash{topicMiss}})
+		logs = append(logs, fakechain.LogSpec{Address: syncx.TargetAddr, Topics: []common.Hash{topicMiss}, Data: common.BigToHash(big.NewInt(1)).Bytes()})
+	case "missAbove":
+		// right topic, value just above the bound
+		logs = append(logs, fakechain.LogSpec{Address: syncx.TargetAddr, Topics: []common.Hash{topicHit}, Data: common.BigToHash(big.NewInt(1001)).Bytes()})
+	case "missHigh":
+		// right topic, a value whose low 64 bits are within the bound but which is >= 2^64
+		logs = append(logs, fakechain.LogSpec{Address: syncx.TargetAddr, Topics: []common.Hash{topicHit}, Data: common.BigToHash(new(big.Int).Add(new(big.Int).Lsh(big.NewInt(1), 64), big.NewInt(1))).Bytes()})
 	}
 	for _, x := range s.m.Regs {
 		for _, y := range m.Regs[len(s.m.Regs):] {
@@ -503,7 +520,7 @@ type c02Replay struct {
 func c02alphabet() []c02op {
 	var ops []c02op
 	for _, dt := range []int64{5, 0, -3} {
-		for _, c := range []string{"none", "regA", "regB", "regE", "regMany", "regOther", "trig", "hit", "miss"} {
+		for _, c := range []string{"none", "regA", "regB", "regE", "regMany", "regOther", "trig", "hit", "miss", "missAbove", "missHigh"} {
 			ops = append(ops, c02op{"block", dt, c})
 		}
 	}
@@ -531,7 +548,7 @@ func c02seeds() [][]c02op {
 func c02() *report.Check {
 	return &report.Check{
 		Level: "model_checking",
-		Rule:  "explicit-state BFS from five scripted seed states over {next block with timestamp delta in {+5, 0, -3} and content in {nothing, registration A (release time between blocks), registration B (release time equal to a block time), registration E (release time already past, matters below the activation block), registration for a set the keyper is not in, event-trigger registration expiring two blocks later, matching log, non-matching log}, eon start / success / failure, key release for A / B / the trigger identity, restart}; every block processed by the real processNewBlock with the real syncers on a fake chain, every emitted trigger consumed by the real KeyShareHandler through the service middleware; monitor from the statement on every identity of every trigger and of every published shares message. Classes = kinds of step and numbers of triggers / shares",
+		Rule:  "explicit-state BFS from five scripted seed states over {next block with timestamp delta in {+5, 0, -3} and content in {nothing, registration A (release time between blocks), registration B (release time equal to a block time), registration E (release time already past, matters below the activation block), registration for a set the keyper is not in, event-trigger registration (topic and value bound) expiring two blocks later, matching log, logs missing on the topic / just above the bound / above 2^64 with low bits inside the bound}, eon start / success / failure, key release for A / B / the trigger identity, restart}; every block processed by the real processNewBlock with the real syncers on a fake chain, every emitted trigger consumed by the real KeyShareHandler through the service middleware; monitor from the statement on every identity of every trigger and of every published shares message. Classes = kinds of step and numbers of triggers / shares",
 		Assumptions: []string{
 			"the identity of a registration is looked up in the keyper's own event tables (their correctness is C15/C16's subject)",
 			"safety only: that an eligible identity is eventually triggered is not demanded",
